@@ -333,7 +333,7 @@ func TestC17(t *testing.T) {
 			}
 			gmin, _ := res.GetMinValue()
 			gmax, _ := res.GetMaxValue()
-			if !obs.FEq(gmin, mn*scale) || !obs.FEq(gmax, mx*scale) {
+			if !(gmin == mn*scale) || !(gmax == mx*scale) {
 				t.Fatalf("C17 exact: min/max (%v,%v) after conversion, expected (%v,%v) = scale * (%v,%v)", gmin, gmax, mn*scale, mx*scale, mn, mx)
 			}
 			k2 := k.copy()
@@ -342,6 +342,39 @@ func TestC17(t *testing.T) {
 			if got := res.GetSum(); math.Abs(got-sum) > 12*0x1p-52*sumAbs {
 				t.Fatalf("C17 exact: sum %v after conversion, expected %v", got, sum)
 			}
+		}
+		// ---- independence of source and result, in both directions
+		type snapT [5]float64
+		snap := func(s obs.SK) snapT {
+			mn, _ := s.GetMinValue()
+			mx, _ := s.GetMaxValue()
+			sum := 0.0
+			if s.IsExact() { // the plain sketch's sum iterates a map in random order over non-dyadic weights: not comparable
+				sum = s.GetSum()
+			}
+			return snapT{s.GetCount(), sum, mn, mx, s.GetZeroCount()}
+		}
+		near := func(a, b snapT) bool {
+			for i := range a {
+				if !(a[i] == b[i]) && !(math.Abs(a[i]-b[i]) <= 1e-9*math.Abs(b[i])) {
+					return false
+				}
+			}
+			return true
+		}
+		res2 := src.ChangeMapping(m2, tgtKind.Provider(), scale)
+		r2snap := snap(res2)
+		_ = res.AddWithCount(scale, 3)
+		_ = res.Add(-scale)
+		res.Clear()
+		if dd := obs.DiffSketch(helper.fullObs(src, k, sc), before, obs.DiffOpts{IgnoreSum: !exact && srcKind.Name == "sparse"}); dd != "" {
+			t.Fatalf("C17 %s->%s scale=%v: operating on the result changed the source: %s", s1, s2, scale, dd)
+		}
+		_ = src.AddWithCount(1, 3)
+		_ = src.Add(-1)
+		src.Clear()
+		if got := snap(res2); !near(got, r2snap) {
+			t.Fatalf("C17 %s->%s scale=%v: operating on the source changed the result: (count,sum,min,max,zero) %v -> %v", s1, s2, scale, r2snap, got)
 		}
 		stats.Count("C17", "quantile_queries", int64(len(qs)))
 		cl.labelIf(len(k.neg) > 0, "negative-side")
